@@ -1,7 +1,7 @@
 import sys, importlib
 from pyvc.runner import run_unit
 mod = importlib.import_module(sys.argv[1])
-sel = sys.argv[2] if len(sys.argv) > 2 else None
+sel = next((a for a in sys.argv[2:] if not a.startswith('-')), None)
 for u in mod.UNITS:
     if sel and sel not in u.name: continue
     r = run_unit(u)
